@@ -54,6 +54,27 @@ CHECKS = {
    technique="property-based testing of the real process: generated command scripts over stdin, stdout parsed against a line-by-line transcript grammar (reference model of the protocol), exit status checked",
    text="Generated scripts of all line kinds incl. unknown/blank/UTF-8 lines, ending in quit (with trailing lines) or end of input (with/without final newline); stdout must match the slot grammar exactly and the process must exit 0.",
    note="Termination judged with a 5 s allowance on an idle process; a go that never answers is inconclusive (exit 2)."),
+
+ "C03": dict(level="exploration", design="DESIGN.md §4 C03",
+   technique="stateful (model-based) property testing in-process with node-count budgets as deterministic expiry points, plus black-box script testing of the real process; oracle = reference legal-move set of the position last set",
+   text="Layer A: generated op lists (newgame / position / play / search with depth 1..4 and budgets expiring before, inside and between iterations) on one engine, the answer of every search must be a reference-legal move of the current position iff one exists. Layer B: the real binary driven over pipes with depth, movetime and clock-based go commands on both sides of the 5 s reserve; exactly one bestmove line per go, legal, 0000 only when no move exists.",
+   note="Layer A observes the Option<Move> from which handle_go_command prints bestmove; node budgets (hook) stand for wall-clock budgets."),
+ "C08": dict(level="exploration", design="DESIGN.md §4 C08",
+   technique="property-based testing with a validity-predicate oracle: constructed mate-in-one and allows-mate-in-one positions (verified by the reference), engine answer checked against Mates(p) / Allows(p)",
+   text="Thousands of positions with a verified mate in one (heavy-piece constructions, retractions from generated checkmates, perturbed mate shapes) searched at depth 1..4, and positions with a verified mix of moves that do and do not allow a mate in one searched at depth 2..3; the predicate, not one expected move, is checked.",
+   note="Mates/Allows computed by refchess; fresh Searcher per search; searches over the node watchdog are excluded and counted."),
+ "C09": dict(level="exploration", design="DESIGN.md §4 C09",
+   technique="property-based testing over generated game histories with controlled repetition multiplicities; oracle = occurrence count in the reference history combined with reference quiescence values (depth-1 value equation), through the real position/go command path",
+   text="Histories built from prefixes, 0..3 shuffle cycles and partial cycles (with lost rights, irreversible moves, earlier position commands that must not count); the engine's depth-1 score after 'position ... / go depth 1' must equal max over moves of (seen twice before ? 0 : real value).",
+   note="Successors whose count depends on the ep convention are excluded; reference quiescence as in C05."),
+ "C13": dict(level="exploration", design="DESIGN.md §4 C13",
+   technique="differential testing between independent runs of the real process (each with fresh random keys) and metamorphic fresh-equivalence for ucinewgame, over generated depth-limited command scripts",
+   text="Generated scripts with carried-over search state are run in 3 (8 thorough) separate processes and must give identical normalised output; prefix + ucinewgame + suffix must give the same suffix output as a fresh process.",
+   note="Key-set dependence is sampled with R runs per script; only time and nps fields are removed."),
+ "C17": dict(level="exploration", design="DESIGN.md §4 C17",
+   technique="differential property-based testing of the quiescence move set against the reference (captures, promotions, checks incl. discovered), on generated positions and on every quiescence node recorded inside real searches (hook)",
+   text="Public generate_quiescence_moves compared as a multiset with the reference tactical set on ~60k generated positions incl. discovered-check, ep-check, castling-check and under-promotion-check motifs; plus every quiescence node visited by real depth-1..2 searches (in-check nodes must list all legal moves).",
+   note="Hook records the list search_until_quiet chose, before ordering."),
 }
 
 NOT_YET = {}
